@@ -7,11 +7,11 @@ package main
 //    running maximum (admissibility).   R3 weights/totals.   R4 symmetric links.
 
 import (
-	"strings"
 	"fmt"
 	"go/ast"
 	"go/token"
 	"go/types"
+	"strings"
 )
 
 func init() { register("C19", false, checkC19) }
@@ -374,11 +374,11 @@ func c19weights(c *Ctx, info *types.Info, p *pkgT, netT *types.Named) {
 	}
 	// the loop that turns the node path into links and totals: in ShortestRoute or in a helper it calls
 	type found struct {
-		fd          *ast.FuncDecl
-		loop        ast.Stmt
-		body        *ast.BlockStmt
+		fd               *ast.FuncDecl
+		loop             ast.Stmt
+		body             *ast.BlockStmt
 		route, dist, tim types.Object
-		msg         string
+		msg              string
 	}
 	var hit *found
 	isNeighborsLookup := func(e ast.Expr) (x, y ast.Expr, ok bool) {
